@@ -4,8 +4,12 @@ import json
 import sys
 
 pid = sys.argv[1]
-wt = f'/tmp/wt/{pid}'
-out = f'/tmp/seedout/{pid}'
+rnd = sys.argv[2] if len(sys.argv) > 2 else '1'
+wt = f'/tmp/wt/{pid}' if rnd == '1' else f'/tmp/wt{rnd}/{pid}'
+out = f'/tmp/seedout/{pid}' if rnd == '1' else f'/tmp/seedout{rnd}/{pid}'
+EXTRA = '' if rnd == '1' else '''
+
+IMPORTANT - make them HARD TO FIND: assume a reviewer already exercises every clause of the property with straightforward randomised tests on freshly built objects with the common option values, and would catch any change whose effect shows up in a single ordinary call. Prefer changes whose effect depends on (a) the earlier HISTORY of the same object (previous solves or failures of the same period, copies, reindexing, variables added later, strict toggled, lags/leads changed at run time, a previous call that raised), (b) rarely combined options or boundary values (for example tol=0, min_iter == max_iter, negative positions together with offsets, empty check lists, zero-length or length-one spans, labels that are falsy or compare equal across types), (c) process-global or class-level state (the warnings filter stack, the numpy error state, class attributes shared by instances, mutable default arguments, caches), (d) particular span / label / dtype kinds (NumPy arrays, pandas PeriodIndex or DatetimeIndex, tuples as labels, string and boolean dtypes), or (e) the interplay of two modules or two call sites that each look fine alone. Do not reuse the most obvious one-line edits (flipping a comparison, an off-by-one in a range, dropping an argument).'''
 prop = None
 for line in open('/verif/properties.jsonl'):
     p = json.loads(line)
@@ -27,7 +31,7 @@ STATEMENT: {prop['statement']}
 
 IT IS MEANT TO HOLD FOR: {prop['quantifier']['text']}
 
-YOUR TASK: produce THREE different changes to the library source (files under {wt}/fsic/) each of which BREAKS this property (any clause of it) while the package still imports and the existing test suite still passes exactly as at baseline. The three changes must use different mechanisms / touch different clauses of the property. Each change should look like a realistic mistake (a plausible refactoring slip, optimisation, or 'improvement' a developer could make) and must need something SPECIFIC to manifest - e.g. a particular sequence of several operations, a fault/exception/non-finite value at a particular point, a particular option combination or unusual input, a boundary value, or two cooperating edits that each look fine alone - NOT something that ordinary use (e.g. just constructing and solving a typical model with default options) would expose at once. Subtle is better than blatant, but it must be a real violation of the property as stated, demonstrable through the public API.
+YOUR TASK: produce THREE different changes to the library source (files under {wt}/fsic/) each of which BREAKS this property (any clause of it) while the package still imports and the existing test suite still passes exactly as at baseline. The three changes must use different mechanisms / touch different clauses of the property. Each change should look like a realistic mistake (a plausible refactoring slip, optimisation, or 'improvement' a developer could make) and must need something SPECIFIC to manifest - e.g. a particular sequence of several operations, a fault/exception/non-finite value at a particular point, a particular option combination or unusual input, a boundary value, or two cooperating edits that each look fine alone - NOT something that ordinary use (e.g. just constructing and solving a typical model with default options) would expose at once. Subtle is better than blatant, but it must be a real violation of the property as stated, demonstrable through the public API.{EXTRA}
 
 For each change i in 1..3 write into {out}/:
   - patch_i.diff : output of `git -C {wt} diff` for that change alone (relative to the clean worktree; must apply with `git apply` to a clean checkout of the same commit)
